@@ -18,6 +18,7 @@ type Analysis struct {
 	Unsupported map[string]string
 	FuncsWalked int
 	PathsTotal  int
+	Overflow    []string // roots whose path budget was exceeded
 }
 
 // NewAnalysis creates an analysis over a loaded program.
@@ -115,9 +116,25 @@ func insideFuncLit(body ast.Node, pos token.Pos) bool {
 	return in
 }
 
+// PathOpts restricts the enumeration of a package.
+type PathOpts struct {
+	Roots    []string // enumerate only roots whose short name ends with one of these ("" = all)
+	NoInline bool     // treat every call as opaque
+	Inline   []string // with NoInline: callees (short name suffixes) that are inlined nevertheless
+	MaxPaths int
+}
+
+func (o PathOpts) key() string {
+	return fmt.Sprintf("%v|%v|%v|%d", o.Roots, o.NoInline, o.Inline, o.MaxPaths)
+}
+
 // Paths enumerates (once) all paths of the package given relative to the module root.
-func (a *Analysis) Paths(rel string) ([]*Path, error) {
-	if p, ok := a.paths[rel]; ok {
+func (a *Analysis) Paths(rel string) ([]*Path, error) { return a.PathsOpt(rel, PathOpts{}) }
+
+// PathsOpt enumerates the paths of selected roots of a package.
+func (a *Analysis) PathsOpt(rel string, opt PathOpts) ([]*Path, error) {
+	ckey := rel + "|" + opt.key()
+	if p, ok := a.paths[ckey]; ok {
 		return p, nil
 	}
 	pkg, err := a.P.MustPkg(rel)
@@ -125,12 +142,44 @@ func (a *Analysis) Paths(rel string) ([]*Path, error) {
 		return nil, err
 	}
 	w := NewWalker(a.P)
+	if opt.MaxPaths > 0 {
+		w.MaxPaths = opt.MaxPaths
+	}
+	if opt.NoInline {
+		w.Inline = func(caller, callee *FuncInfo) bool {
+			if caller.Pkg != callee.Pkg {
+				return false
+			}
+			for _, n := range opt.Inline {
+				if strings.HasSuffix(callee.Name(), n) {
+					return true
+				}
+			}
+			return false
+		}
+	}
+	wantRoot := func(f *FuncInfo) bool {
+		if len(opt.Roots) == 0 {
+			return true
+		}
+		for _, r := range opt.Roots {
+			if strings.HasSuffix(f.Name(), r) {
+				return true
+			}
+		}
+		return false
+	}
 	var all []*Path
 	covered := map[*FuncInfo]bool{}
 	walk := func(f *FuncInfo) error {
 		ps, err := w.EnumerateFunc(f)
 		if err != nil {
-			return err
+			// too many paths: the function (and what it inlines) is outside what the walker decides;
+			// obligations anchored in it come out undecided
+			a.Unsupported[f.Name()] = err.Error()
+			a.Overflow = append(a.Overflow, f.Name())
+			covered[f] = true
+			return nil
 		}
 		covered[f] = true
 		for _, p := range ps {
@@ -143,23 +192,35 @@ func (a *Analysis) Paths(rel string) ([]*Path, error) {
 		all = append(all, ps...)
 		return nil
 	}
-	for _, f := range a.Roots(pkg) {
-		if err := walk(f); err != nil {
-			return nil, err
+	if len(opt.Roots) > 0 {
+		for _, f := range a.P.FuncsOf(pkg) {
+			if wantRoot(f) {
+				if err := walk(f); err != nil {
+					return nil, err
+				}
+			}
 		}
-	}
-	// anything not reached (inlining depth, recursion) is enumerated on its own
-	for _, f := range a.P.FuncsOf(pkg) {
-		if !covered[f] {
+	} else {
+		for _, f := range a.Roots(pkg) {
 			if err := walk(f); err != nil {
 				return nil, err
+			}
+		}
+		// anything not reached (inlining depth, recursion) is enumerated on its own
+		for _, f := range a.P.FuncsOf(pkg) {
+			if !covered[f] {
+				if err := walk(f); err != nil {
+					return nil, err
+				}
 			}
 		}
 	}
 	for i := 0; i < len(w.FuncLits); i++ {
 		ps, err := w.EnumerateLit(w.FuncLits[i])
 		if err != nil {
-			return nil, err
+			a.Unsupported[w.FuncLits[i].Owner.Name()+"$lit"] = err.Error()
+			a.Overflow = append(a.Overflow, w.FuncLits[i].Owner.Name()+"$lit")
+			continue
 		}
 		all = append(all, ps...)
 	}
@@ -168,7 +229,7 @@ func (a *Analysis) Paths(rel string) ([]*Path, error) {
 	}
 	a.FuncsWalked += len(covered) + len(w.FuncLits)
 	a.PathsTotal += len(all)
-	a.paths[rel] = all
+	a.paths[ckey] = all
 	return all, nil
 }
 
@@ -353,4 +414,21 @@ func (a *Analysis) DumpPath(p *Path) string {
 		fmt.Fprintf(&b, "  %-28s %s\n", a.P.Pos(e.Pos), a.DescribeEvent(e))
 	}
 	return b.String()
+}
+
+// ShareCache copies into a the cached paths of b for every package except those listed (given
+// relative to the module root).
+func (a *Analysis) ShareCache(b *Analysis, except ...string) {
+	for k, v := range b.paths {
+		rel := k[:strings.Index(k, "|")]
+		skip := false
+		for _, e := range except {
+			if rel == e {
+				skip = true
+			}
+		}
+		if !skip {
+			a.paths[k] = v
+		}
+	}
 }
